@@ -3,8 +3,8 @@
    the model regenerated from /repo, instantiated over the real numbers (Rops): what the
    code computes when rounding is ignored.  [ang d] is an Angle object holding d degrees;
    [uvec lon lat] is the unit vector of a direction (radians); Rx/Ry/Rz are the active
-   right-handed rotations about the axes (PyLib.Sphere).  The exact poles |latitude| = 90
-   are excluded (the code divides by cos through tan). *)
+   right-handed rotations about the axes (PyLib.Sphere).  An INPUT exactly at a pole (|latitude| = 90) is excluded in the rotation theorems
+   (tan of the input latitude); an OUTPUT at a pole is included (latitude = atan2 z cos-lat). *)
 From Coq Require Import Reals ZArith List String.
 From PyLib Require Import PyVal PyBuiltins Ideal Sphere.
 From Gen Require Import M_base M_Angle M_Epoch M_Interpolation M_Coordinates.
@@ -12,21 +12,45 @@ From Proofs.C05 Require Import C05_angle C05_run C05_ecl C05_hor C05_gal C05_sep
 Import ListNotations.
 Open Scope R_scope.
 
-(* exact closed forms of every output (these pin each formula of the six conversions) *)
+(* exact closed forms of every output (these pin each formula of the conversions): the
+   longitude is atan2 (y, x) and the latitude atan2 (z, |cos lat_in| sqrt (x^2 + y^2)) *)
 Theorem C05_closed_forms :
   (forall al de ep, f_equatorial2ecliptical Rops (ang al) (ang de) (ang ep) =
-     VTuple [ang (topos (r2d (atan2 (sin (d2r al) * cos (d2r ep) + tan (d2r de) * sin (d2r ep)) (cos (d2r al)))));
-             ang (r2d (asin (sin (d2r de) * cos (d2r ep) - cos (d2r de) * sin (d2r ep) * sin (d2r al))))]) /\
+     let y := sin (d2r al) * cos (d2r ep) + tan (d2r de) * sin (d2r ep) in let x := cos (d2r al) in
+     VTuple [ang (topos (r2d (atan2 y x)));
+             ang (r2d (atan2 (sin (d2r de) * cos (d2r ep) - cos (d2r de) * sin (d2r ep) * sin (d2r al))
+                             (Rabs (cos (d2r de)) * sqrt (x * x + y * y))))]) /\
   (forall lo la ep, f_ecliptical2equatorial Rops (ang lo) (ang la) (ang ep) =
-     VTuple [ang (topos (r2d (atan2 (sin (d2r lo) * cos (d2r ep) - tan (d2r la) * sin (d2r ep)) (cos (d2r lo)))));
-             ang (r2d (asin (sin (d2r la) * cos (d2r ep) + cos (d2r la) * sin (d2r ep) * sin (d2r lo))))]) /\
+     let y := sin (d2r lo) * cos (d2r ep) - tan (d2r la) * sin (d2r ep) in let x := cos (d2r lo) in
+     VTuple [ang (topos (r2d (atan2 y x)));
+             ang (r2d (atan2 (sin (d2r la) * cos (d2r ep) + cos (d2r la) * sin (d2r ep) * sin (d2r lo))
+                             (Rabs (cos (d2r la)) * sqrt (x * x + y * y))))]) /\
   (forall ha de ph, f_equatorial2horizontal Rops (ang ha) (ang de) (ang ph) =
-     VTuple [ang (r2d (atan2 (sin (d2r ha)) (cos (d2r ha) * sin (d2r ph) - tan (d2r de) * cos (d2r ph))));
-             ang (r2d (asin (sin (d2r ph) * sin (d2r de) + cos (d2r ph) * cos (d2r de) * cos (d2r ha))))]) /\
+     let y := sin (d2r ha) in let x := cos (d2r ha) * sin (d2r ph) - tan (d2r de) * cos (d2r ph) in
+     VTuple [ang (r2d (atan2 y x));
+             ang (r2d (atan2 (sin (d2r ph) * sin (d2r de) + cos (d2r ph) * cos (d2r de) * cos (d2r ha))
+                             (Rabs (cos (d2r de)) * sqrt (x * x + y * y))))]) /\
   (forall az el ph, f_horizontal2equatorial Rops (ang az) (ang el) (ang ph) =
-     VTuple [ang (r2d (atan2 (sin (d2r az)) (cos (d2r az) * sin (d2r ph) + tan (d2r el) * cos (d2r ph))));
-             ang (r2d (asin (sin (d2r ph) * sin (d2r el) - cos (d2r ph) * cos (d2r el) * cos (d2r az))))]).
-Proof. exact (conj eq2ecl_closed (conj ecl2eq_closed (conj eq2hor_closed hor2eq_closed))). Qed.
+     let y := sin (d2r az) in let x := cos (d2r az) * sin (d2r ph) + tan (d2r el) * cos (d2r ph) in
+     VTuple [ang (r2d (atan2 y x));
+             ang (r2d (atan2 (sin (d2r ph) * sin (d2r el) - cos (d2r ph) * cos (d2r el) * cos (d2r az))
+                             (Rabs (cos (d2r el)) * sqrt (x * x + y * y))))]) /\
+  (forall al de, f_equatorial2galactic Rops (ang al) (ang de) =
+     let h := d2r g_ra - d2r al in
+     let y := sin h in let x := cos h * sin (d2r g_dec) - tan (d2r de) * cos (d2r g_dec) in
+     VTuple [ang (topos (red360 (r2d (- atan2 y x) + g_l0)));
+             ang (r2d (atan2 (sin (d2r de) * sin (d2r g_dec) + cos (d2r de) * cos (d2r g_dec) * cos h)
+                             (Rabs (cos (d2r de)) * sqrt (x * x + y * y))))]) /\
+  (forall lo la, f_galactic2equatorial Rops (ang lo) (ang la) =
+     let h := d2r lo - d2r g_l1 in
+     let y := sin h in let x := cos h * sin (d2r g_dec) - tan (d2r la) * cos (d2r g_dec) in
+     VTuple [ang (topos (r2d (atan2 y x) + g_ra1));
+             ang (r2d (atan2 (sin (d2r la) * sin (d2r g_dec) + cos (d2r la) * cos (d2r g_dec) * cos h)
+                             (Rabs (cos (d2r la)) * sqrt (x * x + y * y))))]).
+Proof.
+  exact (conj eq2ecl_closed (conj ecl2eq_closed (conj eq2hor_closed (conj hor2eq_closed
+        (conj eq2gal_closed gal2eq_closed))))).
+Qed.
 
 (* equatorial <-> ecliptical: rotation by -/+ obliquity about the x axis; longitude in
    [0,360), latitude in [-90,90] *)
@@ -144,8 +168,8 @@ Proof.
         (conj eq2gal_dot gal2eq_dot))))).
 Qed.
 
-(* angular separation: its cosine is the dot product of the two directions (the haversine
-   formula of the code is the cosine rule), 0 <= separation <= 180, symmetric *)
+(* angular separation: theta = 2 atan2 (sqrt h, sqrt hc) with hc = 1 - h, so its cosine is
+   the dot product of the two directions (cosine rule), 0 <= separation <= 180, symmetric *)
 Theorem C05_separation :
   (forall a1 d1 a2 d2,
     -360 < a1 < 360 -> -360 < d1 < 360 -> -360 < a2 < 360 -> -360 < d2 < 360 ->
@@ -156,21 +180,34 @@ Theorem C05_separation :
   (forall a1 d1 a2 d2,
     -360 < a1 < 360 -> -360 < d1 < 360 -> -360 < a2 < 360 -> -360 < d2 < 360 ->
     f_angular_separation Rops (ang a1) (ang d1) (ang a2) (ang d2)
-    = f_angular_separation Rops (ang a2) (ang d2) (ang a1) (ang d1)).
-Proof. exact (conj angsep_cos angsep_sym). Qed.
+    = f_angular_separation Rops (ang a2) (ang d2) (ang a1) (ang d1)) /\
+  (forall A1 D1 A2 D2,
+    sep_hc (d2r (red360 (D1 + - D2))) (d2r D1) (d2r D2) (d2r (red360 (A1 + - A2)))
+    = 1 - sep_h (d2r (red360 (D1 + - D2))) (d2r D1) (d2r D2) (d2r (red360 (A1 + - A2)))).
+Proof. exact (conj angsep_cos (conj angsep_sym sep_hc_value)). Qed.
 
-(* relative position angle: closed form, and it negates when the right-ascension
-   difference changes sign *)
+(* relative position angle: closed form atan2 (cos d1 sin da, sin (d1-d2) + 2 sin d2 cos d1
+   sin^2 (da/2)); its second argument is u1 . north2; it equals Meeus' quotient form
+   atan2 (sin da, cos d2 tan d1 - sin d2 cos da) when cos d1 > 0; it negates when the
+   right-ascension difference changes sign *)
 Theorem C05_position_angle :
-  (forall a1 d1 a2 d2, -360 < a1 < 360 -> -360 < a2 < 360 ->
+  (forall a1 d1 a2 d2,
+    -360 < a1 < 360 -> -360 < a2 < 360 -> -360 < d1 < 360 -> -360 < d2 < 360 ->
     f_relative_position_angle Rops (ang a1) (ang d1) (ang a2) (ang d2)
-    = ang (r2d (atan2 (sin (d2r (red360 (a1 + - a2))))
-                      (cos (d2r d2) * tan (d2r d1) - sin (d2r d2) * cos (d2r (red360 (a1 + - a2))))))) /\
-  (forall a1 d1 a2 d2 p, -360 < a1 < 360 -> -360 < a2 < 360 ->
-    sin (d2r a1 - d2r a2) <> 0 ->
+    = ang (r2d (pa_rad (d2r (red360 (d1 + - d2))) (d2r (red360 (a1 + - a2))) (d2r d1) (d2r d2)))) /\
+  (forall A1 D1 A2 D2,
+    pa_x (d2r (red360 (D1 + - D2))) (d2r (red360 (A1 + - A2))) (d2r D1) (d2r D2)
+    = sin (d2r D1) * cos (d2r D2) - sin (d2r D2) * cos (d2r D1) * cos (d2r A1 - d2r A2)) /\
+  (forall a1 d1 a2 d2, 0 < cos (d2r d1) ->
+    pa_rad (d2r (red360 (d1 + - d2))) (d2r (red360 (a1 + - a2))) (d2r d1) (d2r d2)
+    = atan2 (sin (d2r a1 - d2r a2))
+            (cos (d2r d2) * tan (d2r d1) - sin (d2r d2) * cos (d2r a1 - d2r a2))) /\
+  (forall a1 d1 a2 d2 p,
+    -360 < a1 < 360 -> -360 < a2 < 360 -> -360 < d1 < 360 -> -360 < d2 < 360 ->
+    cos (d2r d1) * sin (d2r a1 - d2r a2) <> 0 ->
     f_relative_position_angle Rops (ang a1) (ang d1) (ang a2) (ang d2) = ang p ->
     f_relative_position_angle Rops (ang a2) (ang d1) (ang a1) (ang d2) = ang (- p)).
-Proof. exact (conj relpa_closed relpa_antisym). Qed.
+Proof. exact (conj relpa_closed (conj pa_x_value (conj relpa_quotient_form relpa_antisym))). Qed.
 
 Redirect "C05_closed_forms.assumptions" Print Assumptions C05_closed_forms.
 Redirect "C05_ecl_rotation.assumptions" Print Assumptions C05_ecl_rotation.
